@@ -319,6 +319,15 @@ impl Sim {
                     .map(|i| TransactionInfo { index: i as u32 });
                 json!({"ok": null})
             }
+            "bal" => {
+                // the bank balances the contract would see through its querier (implementation-led runs keep
+                // them equal to the chain ledger before every entry-point call)
+                let coins = parse_coins(&req["coins"]).unwrap_or_default();
+                self.deps
+                    .querier
+                    .update_balance(req["addr"].as_str().unwrap_or(""), coins);
+                json!({"ok": null})
+            }
             "snap" => {
                 self.snaps.push(self.deps.storage.clone());
                 json!({"ok": null})
